@@ -31,6 +31,7 @@ def check(ctx: Ctx) -> None:
             if r.outcome == "raise":
                 ctx.fail("C07.row", TL, what, f"a metadata child makes rendering raise {r.exc}")
                 continue
+            _order(ctx, r, what)
             ctx.check(r.tokens == [], "C07.row", what + " emits nothing", TL, what,
                       f"a metadata child emits {fmt(r.tokens)}", witness=f"state {_state_text(step)}")
             nxt = sib_apply_all(m, r, step["state"], ch, step["params"])
@@ -77,6 +78,29 @@ def check(ctx: Ctx) -> None:
     from ..report import SharedCtx
     from .c20 import render_table
     render_table(SharedCtx(ctx, lambda r: "C07.jsx" if r == "C20.meta" else None), I)
+
+
+def _order(ctx: Ctx, r, what: str) -> None:
+    """The sibling loop recognises a metadata child before it asks any structural (Protocol) question about it: a subclass of
+    MetadataNode is free to define _repr_html_ (a notebook preview) or tagify, and would otherwise be written into the markup."""
+    if r.leaf is None or r.element is None:
+        return
+    uid = r.element.uid
+    early = []
+    for atom, lbl in r.leaf.atoms:
+        if not (isinstance(atom, tuple) and len(atom) >= 3 and atom[0] == "isinstance" and atom[1] == uid):
+            continue
+        names = str(atom[2]).split("|")
+        if any(n in ("MetadataNode", "HTMLDependency") for n in names):
+            break
+        for n in names:
+            ci = ctx.prog.get_class(n)
+            if ci is not None and ci.is_protocol():
+                early.append(n)
+    ctx.check(not early, "C07.order", what + ": recognised as metadata before any Protocol test", TL, what + " [order]",
+              f"the sibling loop tests the child against the structural protocol(s) {sorted(set(early))} before it tests for MetadataNode: "
+              f"a MetadataNode subclass that defines the protocol's method is rendered into the markup instead of being skipped",
+              witness="class Dep(MetadataNode):\n    def _repr_html_(self): return '<i>preview</i>'\nTagList('a', Dep(), 'b').get_html_string()")
 
 
 def thorough(ctx: Ctx) -> None:
